@@ -152,6 +152,8 @@ def parseTop (toks : List String) : Option STop :=
   | ["sigprepare", r] => (parseRef r).map .sigPrepare
   | ["sigclone", a] => (parseIdx 'a' a).map .sigClone
   | ["sigdrop", a] => (parseIdx 'a' a).map .sigDrop
+  -- the handle and a fresh clone of it dropped by two racing threads: for the model, one drop
+  | ["sigdroprace", a] => (parseIdx 'a' a).map .sigDrop
   | ["sigthreads", a, n] => do pure (.sigThreads (← parseIdx 'a' a) (← n.toNat?))
   | _ => none
 
